@@ -229,7 +229,7 @@ fn scale_cases(sink: &mut EnumSink) {
     ];
     for (big, small, what) in cases {
         let mut o = Outcome::default();
-        scale_pair(&big, &small, &mut o);
+        crate::runner::on_user_stack(|| scale_pair(&big, &small, &mut o));
         sink.case(&o, true, || format!("scale case: {}", what));
         if sink.failed() {
             return;
